@@ -218,6 +218,8 @@ def norm_model(c, out):
 
 # ---------------------------------------------------------------- the property, restated
 def oracle(c, out):
+    if c.get("multi"):
+        return oracle_multi(c, out)
     r = canon_impl(c, out)
     if r is None:
         return ("harness-error", "the scenario did not complete: " + out[:300])
@@ -281,20 +283,106 @@ def oracle(c, out):
     return None
 
 
+# ---------------------------------------------------------------- several sources per VPN key (outside the model)
+def gen_multi(rng):
+    """a and d (a second route reflector, say) announce the SAME VPN keys; which of the two is selected changes as they
+    announce, replace and withdraw; b and c learn by Route Target membership"""
+    ev = []
+    keys = SRC_KEYS["a"][:rng.choice([1, 2, 4])]
+    for _ in range(rng.choice([8, 14, 22])):
+        r = rng.random()
+        if r < 0.35:
+            ev.append(("vpn", rng.choice(["a", "d"]), rng.choice(keys), rtset(rng, 0.05)))
+        elif r < 0.55:
+            ev.append(("vpnwd", rng.choice(["a", "d"]), rng.choice(keys)))
+        elif r < 0.75:
+            p = rng.choice(["b", "c"])
+            ev.append(("rtm", p, "a", 65002 if p == "b" else 65003, rng.choice(RTS)))
+        elif r < 0.88:
+            p = rng.choice(["b", "c"])
+            ev.append(("rtm", p, "w", 65002 if p == "b" else 65003, rng.choice(RTS)))
+        else:
+            ev.append(("obs",))
+    ev.append(("obs",))
+    return {"events": ev, "ce": False, "multi": True}
+
+
+def oracle_multi(c, out):
+    o = out[4:] if out.startswith("SIM ") else out
+    if not o.startswith("ok"):
+        return ("harness-error", "the scenario did not complete: " + out[:300])
+    obs = [x for x in simlib.parse_sx(o[2:]) if x and x[0] == "obs"]
+    addr = {n: a for n, a, _, _ in PEERS}
+    ann = {}                                     # (key, source name) -> targets
+    mem = {"b": set(), "c": set()}
+    i = 0
+    for e in c["events"]:
+        k = e[0]
+        if k == "vpn":
+            ann[(e[2], e[1])] = set(e[3])
+        elif k == "vpnwd":
+            ann.pop((e[2], e[1]), None)
+        elif k == "rtm":
+            (mem[e[1]].add if e[2] == "a" else mem[e[1]].discard)(e[4])
+        elif k == "obs":
+            if i >= len(obs):
+                return ("harness-error", "missing observation")
+            ob = obs[i]
+            i += 1
+            table, held = {}, {}
+            for it in ob[1:]:
+                if it[0] == "vpnrib":
+                    for e2 in it[1:]:
+                        if e2[0] in KEYSTR:
+                            ps = []
+                            for q in e2[1:]:
+                                m = re.search(r"ec\[([^\]]*)\]", q[2] if len(q) > 2 else "")
+                                ps.append((q[0], q[1] in (1, "1", "true", "t"), set(x for x in (m.group(1).split(",") if m else []) if x in RTS)))
+                            table[KEYSTR[e2[0]]] = ps
+                elif it[0] == "peer" and it[1] in addr:
+                    view = [f for f in it[3:] if f[0] == "view"][0]
+                    held[it[1]] = sorted(KEYSTR[x[0].split("#")[0]] for x in view[1:] if x[0].split("#")[0] in KEYSTR)
+            # the VPN table holds, per key, exactly the announced and not withdrawn route of every source, one of them selected
+            for key in set(k2 for k2, _ in ann) | set(table):
+                want = {addr[s]: r for (k2, s), r in ann.items() if k2 == key}
+                have = {src: r for src, _, r in table.get(key, [])}
+                if want != have:
+                    return ("vpn-table-content", "%s: the table holds %s, announced and not withdrawn: %s" % (key, have, want))
+                if table.get(key) and [b for _, b, _ in table[key]].count(True) != 1:
+                    return ("vpn-table-best", "%s: %d selected paths" % (key, [b for _, b, _ in table[key]].count(True)))
+            # what each peer holds: the SELECTED path of every key, unless it came from that peer, and for b / c only with a
+            # membership for one of ITS targets
+            for p in ("a", "b", "c", "d"):
+                want = []
+                for key, ps in table.items():
+                    best = [x for x in ps if x[1]]
+                    if not best or best[0][0] == addr[p]:
+                        continue
+                    if p in ("a", "d") or (best[0][2] & mem[p]):
+                        want.append(key)
+                if sorted(want) != held.get(p, []):
+                    extra = sorted(set(held.get(p, [])) - set(want))
+                    missing = sorted(set(want) - set(held.get(p, [])))
+                    cls = "rtc-peer-lacks-wanted-route" if missing and p in mem else ("rtc-peer-holds-unwanted-route" if p in mem else "vpn-peer-view-differs")
+                    return (cls + "-several-sources", "%s holds %s; the selected paths whose targets it has asked for (memberships %s) are %s (missing %s, extra %s)"
+                            % (p, held.get(p, []), sorted(mem.get(p, [])), sorted(want), missing, extra))
+    return None
+
+
 def shrink_candidates(c):
     ev = c["events"]
     for i in range(len(ev) - 1):
         if ev[i][0] in ("addvrf", "delvrf", "ce"):
             continue                              # keeps the bookkeeping of originated routes in the events valid
-        yield {"events": ev[:i] + ev[i + 1:], "ce": c.get("ce")}
+        yield {"events": ev[:i] + ev[i + 1:], "ce": c.get("ce"), "multi": c.get("multi")}
 
 
 def run(ctx):
     proof = core.coq_properties("C17")
     ctx.say("proof stage: ok=%s theorems=%d audit=%d (%.1fs)" % (proof["ok"], len(proof["theorems"]), len(proof["audit"]), proof.get("wall_s", 0)))
     n = ctx.scale(1200, 30000)
-    cases = [gen_case(ctx.rng) for _ in range(n)]
-    cov = core.differential(ctx, "c17", proof, cases, sim_line, oracle, norm_impl=norm_impl, norm_model=norm_model, model_line_of=model_line,
+    cases = [gen_case(ctx.rng) for _ in range(n)] + [gen_multi(ctx.rng) for _ in range(n // 3)]
+    cov = core.differential(ctx, "c17", proof, cases, sim_line, oracle, model_applies=lambda c: not c.get("multi"), norm_impl=norm_impl, norm_model=norm_model, model_line_of=model_line,
                             shrink_candidates=shrink_candidates, nontrivial=lambda c: sum(1 for e in c["events"] if e[0] == "rtm") >= 2,
                             more_cases=lambda: [gen_case(ctx.rng) for _ in range(n)],
                             correspondence_name="AddVrf/DeleteVrf/AddPath(VRF) + VPNv4 and RTC UPDATEs through propagateUpdate/filterpath/processRTCMembership vs Vrf.Model.step / vrf_view / to_global",
@@ -313,7 +401,9 @@ def run(ctx):
                 "random import/export sets, VRF delete, route originated in / removed from a VRF, observation}; non-trivial = at least two membership events",
         "trusted_base": core.TRUSTED_COMMON + ["go/overlay/internal/verif/sim (synctest), Python restatement of the property in checks/c17.py"],
     })
-    return ctx.finish(pc, ["one source per VPN key (no best-path competition inside a VRF or between RDs); IPv4 VPN only (EVPN is NOT covered)",
+    return ctx.finish(pc, ["the MODEL has one source per VPN key; keys announced by two sources (best-path competition, the VPN route-target index following the selected path) are "
+                           "exercised by an oracle-only scenario family: table content per source, one selected path, every peer holds exactly the selected paths it asked for; "
+                           "no best-path competition inside a VRF; IPv4 VPN only (EVPN is NOT covered)",
                            "the peer attached to a VRF only receives plain routes (it announces nothing); its view is compared with the model's vrf_view",
                            "the RTC End-of-RIB deferral and memberships learned before it, ADD-PATH identifiers on memberships, and import policy on memberships are NOT covered",
                            "one event at a time (no concurrency)"])
